@@ -91,6 +91,7 @@ func (a *Atom) Sig() string {
 
 // Unit is one analysed body: a declared function or a function literal inside one.
 type Unit struct {
+	ctxHops int // recursion guard for cached conditions in ctxParts
 	aliasHops int  // recursion guard for following plain copies in argShape
 	leafMode  bool // shapeOf keeps parameters as ⟦$i|<type>⟧ tokens
 	Fn        *FuncDecl
